@@ -177,6 +177,11 @@ func (c *ctxT) frHist(ws, recv bool, ops []string) {
 		r.Line(line, "ERR serve does not read")
 		return
 	}
+	// on a tree where Serve does not end, do not wait five seconds in every case
+	wait := 5 * time.Second
+	if c.stalls >= 5 {
+		wait = 300 * time.Millisecond
+	}
 	var res []string
 	closedKnown := false
 	ownClose := false // the peer's closing element of the session's own framing was delivered to a running Serve
@@ -238,7 +243,8 @@ func (c *ctxT) frHist(ws, recv bool, ops []string) {
 				case <-t.handled:
 				case err := <-t.serveRet:
 					t.served, t.ret = true, err
-				case <-time.After(5 * time.Second):
+				case <-time.After(wait):
+					c.stalls++
 					res = append(res, "STALL")
 					if op == "q" {
 						fail("serve-returns", "peer-close", "the peer's <close/> was neither handled nor did Serve return")
@@ -249,7 +255,8 @@ func (c *ctxT) frHist(ws, recv bool, ops []string) {
 					t.feedWithin(" ", 2*time.Second)
 				}
 			}
-			if terminal && !t.waitServe(5*time.Second) {
+			if terminal && !t.waitServe(wait) {
+				c.stalls++
 				res = append(res, "STALL")
 				fail("serve-returns", "peer-close", fmt.Sprintf("Serve did not return after event %s (the peer closed its %s stream)", op, frName(ws)))
 				continue
